@@ -21,6 +21,7 @@ ENTRIES = [
     (3, 0, 'hé€llo'),         # multi-byte UTF-8
     (4, 8, b'ab\0junk'),                # junk after the NUL
     (5, 7, ''),                         # same pid as entries 0/1 with an EMPTY name (a later entry wins even when empty)
+    (7, 3, 'q'),                        # a THREAD id that is numerically the PROCESS id of entries 0/1/6 (and a pid that is their tid)
 ]
 CAPTURED = (b'\x8b\xf3\x8f1\x13\xeb\x03\x00ework_BusinessChat-7.0.1-py2.py3\xdeJ\x88\x00\x00\x00\x00\x00'
             b'\x90\x00\x01\x03\x01\x00\x00\x00\x00\x00\x00\x00\x00\x00\x00\x00')
@@ -145,6 +146,7 @@ H_DUMPS = {
     'B': ((3,), 64, ('ff', 'cap')),        # disjoint map
     'C': ((2, 4), 1, ()),                  # overlaps A on tid 1, no records
     'E': ((), 0, ('dist',)),               # empty map
+    'F': ((7,), 0, ('cap',)),              # tid 7 -> pid 3: its thread id is dump A's process id
 }
 # truncated variants of dump A: parsing them raises (mid thread map / mid record); the tables afterwards are not judged, but
 # the NEXT parse through the same objects must behave as if nothing had happened
